@@ -8,8 +8,22 @@ PYVC_TRUST = [
 ]
 
 PROPS = {
+    'C01': {
+        'modules': ['contracts.c01_encode', 'contracts.c04_runtime'],
+        'standins': ['py_codec'],
+        'trusted': PYVC_TRUST + ['struct.pack(e+id, x) (CPython struct module): trusted leaf'],
+        'assumptions': ['prophyc text -> generated class mapping (python generator + exec): bounded stand-in only'],
+        'level': 'proof',
+    },
+    'C19': {
+        'modules': ['contracts.c01_encode', 'contracts.c04_runtime'],
+        'standins': ['py_codec'],
+        'trusted': PYVC_TRUST,
+        'assumptions': ['host is little-endian (C++ native == little)'],
+        'level': 'proof',
+    },
     'C04': {
-        'modules': ['contracts.c04_model'],
+        'modules': ['contracts.c04_model', 'contracts.c01_encode', 'contracts.c04_runtime'],
         'standins': ['py_codec'],
         'trusted': PYVC_TRUST,
         'assumptions': ['g++ sizeof of PROPHY_STRUCT equals packed-ABI sum (C08)'],
